@@ -210,6 +210,9 @@ pub struct ScenCfg {
     pub lose_all_observed: bool,
     /// Only let deadlines expire when TX has serviced every sendable frame (C06 count clause).
     pub tx_priority: bool,
+    /// C01 "late poll": finite deadlines that may only expire once every outstanding response has
+    /// been received; the caller, polled late, must still get its data.
+    pub late_poll: bool,
     pub hb: bool,
     pub trans: TransMode,
     pub max_steps: u64,
@@ -1454,6 +1457,7 @@ pub fn draw_cfg(prop: Prop, t: &mut Tape, thorough: bool) -> ScenCfg {
         observed: None,
         lose_all_observed: false,
         tx_priority: false,
+        late_poll: false,
         hb: false,
         trans: TransMode::Off,
         max_steps: 30_000,
@@ -1465,6 +1469,15 @@ pub fn draw_cfg(prop: Prop, t: &mut Tape, thorough: bool) -> ScenCfg {
         Prop::C01 => {
             cfg.dup = t.pick(&[0u32, 20], "dup");
             cfg.trans = TransMode::Off;
+            if crate::tape::gen() >= 2 && t.flag(25, 100, "late_poll") {
+                cfg.late_poll = true;
+                cfg.pdu_timeout_us = t.pick(&[1000u64, 50, 30_000], "timeout");
+                cfg.retry = match t.choose(3, "retry") {
+                    0 => RetryBehaviour::None,
+                    k => RetryBehaviour::Count(k),
+                };
+                cfg.timer_fire = t.pick(&[(10u32, 100u32), (30, 100), (3, 100)], "timer_rate");
+            }
         }
         Prop::C02 => {
             cfg.hb = true;
@@ -1573,6 +1586,7 @@ pub fn run_scenario(cfg: ScenCfg, tape: Tape, nonce: u64) -> RunOutcome {
     ctx.max_steps = cfg.max_steps;
     ctx.trans_mode = cfg.trans;
     ctx.timer_fire = cfg.timer_fire;
+    ctx.timer_gate_all_received = cfg.late_poll;
     // "No deadline" configurations use a timeout far beyond this horizon.
     ctx.time_horizon = 100_000_000_000;
     for i in 0..n_apps {
